@@ -332,6 +332,18 @@ class DictView:
         _, _, _, val = dict_maps(self.st, self.kty, self.vty)
         return view(self.st, unpack(self.vty, val[self.z][unview(k)]))
 
+    @property
+    def size(self):
+        """len(d) (the engine keeps it in step with has[] on every store / delete)"""
+        from .values import sort_key
+
+        return self.st.hmap(f"DSZ.{sort_key(self.kty)}.{sort_key(self.vty)}", smt.Int, smt.Int)[self.z]
+
+    def raw(self, k):
+        """the stored value as a term (reference or scalar), for 'unchanged' clauses"""
+        _, _, _, val = dict_maps(self.st, self.kty, self.vty)
+        return val[self.z][unview(k)]
+
 
 class SetView:
     def __init__(self, st, z, ety):
